@@ -81,7 +81,9 @@ def M_KT(kt, tier="quick"):
     return {
         "put_new": M("m_put_new_" + kt, W_PUT_NEW, functions=F_PUT, tier=tier, may_unsat=["value record moved", "key record moved", "relocation cascade", "moved key was"]),
         "put_over": M("m_put_over_" + kt, W_PUT_OVER, functions=F_PUT, tier=tier),
-        "del_hit": M("m_del_hit_" + kt, W_DEL_HIT, functions=F_DEL, tier=tier),
+        # with at most 2 live entries the predecessor's link can only shrink on a delete: the
+        # "predecessor moved" witness needs a chain of 3 (thorough tier, feature big)
+        "del_hit": M("m_del_hit_" + kt, W_DEL_HIT, functions=F_DEL, tier=tier, may_unsat=["predecessor moved while being relinked"]),
         "del_miss": M("m_del_miss_" + kt, W_DEL_MISS, functions=F_DEL, tier=tier, may_unsat=["deleted from inside", "deleted the head", "predecessor moved"]),
         "lookup": M("m_lookup_" + kt, W_LOOK, functions=F_GET + F_FL, tier=tier),
     }
@@ -184,7 +186,7 @@ R_ASSUME = ["level R: pre-state = any image of 2..4 slots that satisfies I1 (slo
 R_I1 = "I1 afterwards: every slot a complete record inside its bounds and zero-padded to exactly its end, slots tile the file, every free record on exactly the list of its size class, no slot linked twice"
 
 
-R_MEM = {"r_key_rewrite_bfree": 16, "r_key_rewrite_bused": 16, "r_key_new_bfree": 13, "r_key_new_bused": 13, "r_val_rewrite_bfree": 11, "r_val_rewrite_bused": 11, "r_val_new_bfree": 9, "r_val_new_bused": 9, "r_pop_large3": 5}
+R_MEM = {"r_val_rewrite_bfree_c": 11, "r_val_rewrite_bused_c": 11, "r_val_new_bfree_c": 9, "r_key_rewrite_bfree": 16, "r_key_rewrite_bused": 16, "r_key_new_bfree": 13, "r_key_new_bused": 13, "r_val_rewrite_bfree": 11, "r_val_rewrite_bused": 11, "r_val_new_bfree": 9, "r_val_new_bused": 9, "r_pop_large3": 5}
 
 
 def R(name, what, fn, cap=1500, tier="quick", may_unsat=None):
@@ -203,6 +205,9 @@ R_VREW_L = [R("r_val_rewrite_bfree", W_WR % "ValueFile::write_piece of an existi
 R_VNEW_L = [R("r_val_new_bfree", W_WR % "ValueFile::add_value_piece (slot B free)", F_VW, cap=2400, may_unsat=["in place", "old slot pushed onto a non-empty list"]),
             R("r_val_new_bused", W_WR % "ValueFile::add_value_piece (slot B used)", F_VW, cap=2400, may_unsat=["in place"] + NOFREE)]
 F_KW = ["key.rs VarFileKeyCache::write_piece", "key.rs KeyPiece::dat_write_piece_one", "key.rs KeyPiece::encoded_piece_size", "key.rs KeyFile::add_key_piece", "key.rs read_piece", "key.rs read_piece_only_value_offset", "key.rs read_piece_only_key_length"] + F_POP + ["piece.rs VarFile::push_free_piece_list"]
+R_V3_L = [R("r_val_rewrite_bfree_c", W_WR % "ValueFile::write_piece of an existing record (slot B free, a third used slot C behind it)", F_VW, cap=3000, tier="thorough"),
+          R("r_val_rewrite_bused_c", W_WR % "ValueFile::write_piece of an existing record (slots B and C used)", F_VW, cap=3000, tier="thorough", may_unsat=NOFREE),
+          R("r_val_new_bfree_c", W_WR % "ValueFile::add_value_piece (slot B free, used slot C behind it)", F_VW, cap=3000, tier="thorough", may_unsat=["in place", "old slot pushed onto a non-empty list"])]
 R_KREW_L = [R("r_key_rewrite_bfree", W_WR % "KeyFile::write_piece of an existing key record with new value offset / chain link (slot B free)", F_KW, cap=3000, tier="thorough"),
             R("r_key_rewrite_bused", W_WR % "KeyFile::write_piece of an existing key record (slot B used)", F_KW, cap=3000, tier="thorough", may_unsat=NOFREE)]
 R_KNEW_L = [R("r_key_new_bfree", W_WR % "KeyFile::add_key_piece (slot B free)", F_KW, cap=3000, tier="thorough", may_unsat=["in place", "moved: offsets needed a bigger slot"]),
@@ -211,6 +216,14 @@ R_VDEL = R("r_val_delete", "delete_piece: the slot goes onto the free list of it
 R_WALK = R("r_val_walk", "sequential slot walk (PieceOffsetIter behind the slot-size statistics) over 0..3 tiled slots, free or used: every slot exactly once in address order, then None; terminates; read-only", ["piece.rs PieceOffsetIter::next_piece_offset", "val.rs PieceA for ValueFile"], cap=600)
 
 PROPS = {}
+
+
+def quick(h):
+    """the same harness, scheduled in both tiers"""
+    import copy
+    c = copy.copy(h)
+    c.tier = "quick"
+    return c
 
 
 def thorough(h):
@@ -237,17 +250,17 @@ def prop(pid, harnesses, **kw):
 prop("C09_old", [K_VSLOT, K_VSLOT_2G, K_KSLOT, K_KSLOT_16M, K_ROUNDUP],
      bounds="value length <= 2^24 (quick) / 2^31-16 (thorough); key length <= 2^16 / 2^24; offsets < 2^56 / 2^64",
      outside=["lengths >= 2^31 (u32 arithmetic of the crate wraps; beyond the property's 'at least 16 MiB')"])
-prop("C10", K_INT + K_BYTES, bounds="all 64-bit integers; byte keys up to 8 bytes", outside=["memcmp on byte keys longer than 8 bytes"])
+
 
 R_M = "M-harness rule: one inductive step of the real dbxxx.rs from an arbitrary valid state; see DESIGN 2."
 prop("C01", [MB["put_new"], MB["put_over"], MB["del_hit"], MB["del_miss"], MB["lookup"], M_SETUP, M_BIG["put_new"], M_BIG["put_over"], M_BIG["del_hit"], M_BIG["lookup"]] + [M_KT("vu64", "thorough")[k] for k in ("put_new", "del_miss", "lookup")] + [M_KT("string", "thorough")[k] for k in ("put_new", "put_over", "del_hit")],
      trusted_base=TB_COMMON + M_TB, rule=R_M, bounds=M_BOUNDS,
      outside=["histories that need more than 3 simultaneously live entries in ONE inductive step (longer histories are covered by the induction)", "rabuf's chunking and eviction (dependency)", "I/O errors of a sick file system", "values/keys longer than the tracked bytes at level M: lengths up to 2^24/2^31 are decided at levels K and R"])
-prop("C08", [MB["put_over"], MB["del_hit"], K_KGROW, M_BIG["put_over"], M_BIG["del_hit"], thorough(MV["put_over"]), thorough(MV["del_hit"]), thorough(MS["put_over"])],
+prop("C08", [MB["put_over"], quick(M_BIG["del_hit"]), K_KGROW, M_BIG["put_over"], thorough(MB["del_hit"]), thorough(MV["put_over"]), thorough(MV["del_hit"]), thorough(MS["put_over"])],
      trusted_base=TB_COMMON + M_TB, rule=R_M, bounds=M_BOUNDS, outside=["relocation cascades longer than the chain bound (2 at quick, 3 at thorough): the relink loop is verified for every chain of that length, longer chains repeat the same step"])
-prop("C03", M_FLUSH, trusted_base=TB_COMMON + M_TB, rule=R_M, bounds=M_BOUNDS,
+prop("C03", M_FLUSH + [B_SYNC], trusted_base=TB_COMMON + M_TB + B_TB, rule=R_M, bounds=M_BOUNDS,
      outside=["database-level FileDb::sync_all/sync_data over the name registries (BTreeMap<String,_>: see C11)", "what fsync really does; that rabuf's flush writes every dirty chunk (dependency; its byte model is validated natively)", "SIGKILL timing"])
-prop("C16", M_FAULT, trusted_base=TB_COMMON + M_TB, rule=R_M, bounds=M_BOUNDS,
+prop("C16", M_FAULT + [B_SYNC], trusted_base=TB_COMMON + M_TB + B_TB, rule=R_M, bounds=M_BOUNDS,
      outside=["that a rabuf chunk stays dirty when its write fails, RLIMIT_FSIZE / ENOSPC behaviour of the OS (dependency and kernel): the abyssiniandb part - error propagation and the dirty flag - is what is decided"])
 
 R_B = "B-harness rule: the real byte-level function on a symbolic file image."
@@ -275,11 +288,11 @@ prop("C14", A_ALL, trusted_base=TB_COMMON + A_TB, rule="A-harness rule: the real
 
 R_R = "R-harness rule: one real record-level call from an arbitrary I1 image built from solver variables."
 del PROPS["C09_old"]
-prop("C06", [R_POPL, R_POPS, R_PUSH, R_VDEL] + R_VREW_L + [R_WALK, K_ROUNDUP, K_LISTS] + R_VNEW_L + R_KREW_L + R_KNEW_L + [MB["del_hit"]],
+prop("C06", [R_POPL, R_POPS, R_PUSH, R_VDEL] + R_VREW_L + [R_WALK, K_ROUNDUP, K_LISTS] + R_VNEW_L + R_KREW_L + R_KNEW_L + R_V3_L + [MB["del_hit"]],
      trusted_base=TB_COMMON + R_TB + M_TB, rule=R_R, bounds=R_ASSUME[0],
      outside=["'file size bounded for a bounded live set' follows from the per-call rule (the file grows only if no suitable free slot exists) by a counting argument in DESIGN 4 C06 (prose)", "fragmentation behaviour of first fit on the large list beyond the rule itself",
               "free lists longer than 3 entries in one inductive step"])
-prop("C09", [K_VSLOT, K_KSLOT, K_ROUNDUP] + R_VREW_L + [B_ZERO, B_ZEROL, K_VSLOT_2G, K_KSLOT_16M] + [thorough(h) for h in R_VNEW_L] + R_KREW_L + R_KNEW_L + [c for c in B_CODEC if c.name in ("b_codec_vallen", "b_codec_keylen", "b_codec_size")],
+prop("C09", [K_VSLOT, K_KSLOT, K_ROUNDUP] + R_VREW_L + [B_ZERO, B_ZEROL, K_VSLOT_2G, K_KSLOT_16M] + [thorough(h) for h in R_VNEW_L] + R_KREW_L + R_KNEW_L + R_V3_L + [c for c in B_CODEC if c.name in ("b_codec_vallen", "b_codec_keylen", "b_codec_size")],
      trusted_base=TB_COMMON + R_TB + B_TB, rule=R_R,
      bounds="sizing: value length <= 2^24 (quick) / 2^31-16 (thorough), key length <= 2^16 / 2^24, offsets < 2^56 / 2^64; record writes with neighbours: lengths <= 1300 (keys 300)",
      outside=["lengths >= 2^31 (u32 arithmetic of the crate wraps; beyond the property's 'at least 16 MiB')", "payload bytes beyond the first 3 of a record at level R (the payload is one write_all_small call; its bytes are covered by the buffer model at level B)"])
@@ -297,3 +310,7 @@ prop("C15", [MS["lookup"], MB["del_miss"], M_ITER_X[2], M_ITER["keys"]] + M_STAT
 prop("C18", B_HDRW + [R_PUSH, R_VDEL, R_POPS, B_ZERO, B_ZEROL, K_HASH()[0], MS["lookup"], R_VREW_L[0]] + [thorough(h) for h in [R_VREW_L[1]] + R_VNEW_L] + R_KREW_L + R_KNEW_L,
      trusted_base=TB_COMMON + R_TB + B_TB, rule="determinism as non-interference: the code has no clock, randomness or unordered container of its own; what is decided is that every byte the crate leaves in a slot or header is a function of the call's arguments (I1: complete records, explicit zeros to the exact slot end, from ARBITRARY stale content), that placement has no hidden input, and that read-only calls write nothing (C15)",
      bounds=R_ASSUME[0], outside=["rabuf's flush order (it sorts chunk offsets; dependency)", "process / directory independence of the OS"])
+
+prop("C10", K_INT + K_BYTES + [M_ITER_X[1], thorough(M_ITER["keys"])], trusted_base=TB_COMMON + M_TB, bounds="all 64-bit integers (pairs: 2^128); byte keys up to 8 bytes; iteration: " + M_BOUNDS,
+     outside=["memcmp on byte keys longer than 8 bytes"])
+PROPS["C15"]["harnesses"].append(thorough(A_ALL[0]))
